@@ -48,6 +48,7 @@ def scenario_of(case):
         particles=(12, 32) if quick else (12, 64),
         kernel_steps=(1, 2),
         xps=("numpy",) if quick else ("numpy", "numpy", "torch", "jax"),
+        hard=bool(case["run_index"] % 2),
     )
     rng = rng_from(case["fault_seed"])
     pre = None
